@@ -7,7 +7,7 @@ import z3
 from . import ctx as _ctx
 from .ctx import OutOfReach, PathEnd, SpecError
 from .sym import SymBool, SymInt, SymReal, SymStr, mk_num
-from .heap import ObjProxy, SymList, SymDict, SymSet, Box, Seq, Ref, REG
+from .heap import ObjProxy, SymList, SymDict, SymSet, Box, Seq, Ref, REG, _MapIter
 from . import types as T
 from .loader import LOOP_SPECS
 
@@ -51,6 +51,10 @@ class _Loop:
         self.key, self.spec = key, spec
         self.seq = None
         self.i = None
+        self.mode = "seq"
+        self.view = None
+        self.map = None
+        self.visited = None
         self.pre_arrays = None
         self.dec0 = None
 
@@ -60,7 +64,25 @@ def _ns(lp, locs):
     if lp.seq is not None:
         d["seq"] = lp.seq
         d["i"] = lp.i
+    if lp.mode == "set":
+        d["visited"] = _SetView(lp.visited)
+        d["dom"] = _SetView(lp.dom)
+    from .heap import old_view
+    pre = getattr(_c(), "pre_state", None)
+    d["old"] = lambda o: old_view(o, pre)
     return _NS(d)
+
+
+class _SetView:
+    """read-only view of a ghost set (Array K Bool) for loop invariants"""
+
+    def __init__(self, arr):
+        self.arr = arr
+
+    def __sym_contains__(self, k):
+        from .sym import SymInt, SymStr
+        t = k.t if hasattr(k, "t") else (k._ref if isinstance(k, ObjProxy) else (z3.StringVal(k) if isinstance(k, str) else z3.IntVal(k)))
+        return z3.Select(self.arr, t)
 
 
 def _check_inv(lp, locs, phase):
@@ -85,7 +107,7 @@ def _assume_inv(lp, locs):
             v = fn(ns)
         finally:
             c.spec_mode -= 1
-        c.assume(to_z3_bool(v))
+        c.assume_value(v)
 
 
 def loop_begin(key, locs):
@@ -104,8 +126,25 @@ def for_begin(key, it, locs):
         if spec.elem is None:
             raise SpecError(f"loop {key}: iterating a concrete list needs elem= in the loop contract")
         lp.seq = SymList(Box(Seq(spec.elem).unwrap(it)), spec.elem)
-    elif hasattr(it, "__sym_iter_seq__"):
-        lp.seq = it.__sym_iter_seq__()
+    elif isinstance(it, (SymSet, SymDict, _MapIter)) and not (
+            isinstance(it, SymDict) and it._ty.ordered or isinstance(it, _MapIter) and it.d._ty.ordered):
+        # unordered container: arbitrary enumeration order, modelled by a ghost `visited` set
+        lp.mode = "set"
+        if isinstance(it, SymSet):
+            lp.kty, lp.dom, lp.view, lp.map = it._ty.elem, it._ty.dt.dom(it.term), "k", None
+        elif isinstance(it, SymDict):
+            lp.kty, lp.dom, lp.view, lp.map = it._ty.key, it._ty.dt.dom(it.term), "k", it
+        else:
+            lp.kty, lp.dom, lp.view, lp.map = it.d._ty.key, it.d._ty.dt.dom(it.d.term), it.mode, it.d
+        lp.visited = z3.K(lp.kty.sort(), z3.BoolVal(False))
+        lp.cur = None
+        _check_inv(lp, locs, "entry")
+        return lp
+    elif isinstance(it, (SymDict, _MapIter)):
+        ks = it._ordered_keys() if isinstance(it, SymDict) else it.ks
+        lp.seq = ks.copy()
+        lp.view = "k" if isinstance(it, SymDict) else it.mode
+        lp.map = it if isinstance(it, SymDict) else it.d
     else:
         raise OutOfReach(f"loop contract over iterable of type {type(it).__name__}")
     lp.i = 0
@@ -157,6 +196,9 @@ def loop_havoc(lp, names, locs):
         i = T.Int.fresh("lp_i")
         c.assume(z3.And(_t(i) >= 0, _t(i) <= lp.seq._len()))
         lp.i = i
+    if lp.mode == "set":
+        lp.visited = c.fresh("lp_visited", z3.ArraySort(lp.kty.sort(), z3.BoolSort()))
+        c.assume(z3.IsSubset(lp.visited, lp.dom))
     lp.pre_arrays = dict(c.heap.st.arrays)
     _assume_inv(lp, {k: v for k, v in newlocs.items() if v is not UNBOUND})
     if spec.decreases is not None:
@@ -169,11 +211,31 @@ def _t(i):
 
 
 def for_more(lp):
+    if lp.mode == "set":
+        from .sym import mk_bool
+        return mk_bool(lp.visited != lp.dom)
     return lp.i < lp.seq.__sym_len__()
 
 
 def for_next(lp):
-    return lp.seq._elem.wrap(lp.seq.term[_t(lp.i)])
+    c = _c()
+    if lp.mode == "set":
+        kt = c.fresh("lp_key", lp.kty.sort())
+        c.assume(z3.And(z3.Select(lp.dom, kt), z3.Not(z3.Select(lp.visited, kt))))
+        lp.cur = kt
+        k = lp.kty.wrap(kt)
+    else:
+        k = lp.seq._elem.wrap(lp.seq.term[_t(lp.i)])
+        if lp.view in (None, "k") or lp.map is None:
+            return k
+    if lp.view == "k":
+        return k
+    # live value of the key; assumes the body does not delete keys of the dict it iterates
+    # (CPython raises RuntimeError on the next step otherwise)
+    m = lp.map
+    kt = m._k(k)
+    v = m._ty.val.wrap(z3.Select(m._ty.dt.val(m.term), kt), m._valloc(kt))
+    return v if lp.view == "v" else (k, v)
 
 
 def loop_back(lp, locs):
@@ -184,10 +246,12 @@ def loop_back(lp, locs):
         if key in mods:
             continue
         pre = lp.pre_arrays.get(key)
-        if pre is not None and not pre.eq(arr):
+        if (pre is not None and not pre.eq(arr)) or (pre is None and not z3.is_const(arr)):
             raise SpecError(f"loop {lp.key}: body writes heap field {key} not listed in modifies")
     if lp.seq is not None:
         lp.i = lp.i + 1
+    if lp.mode == "set":
+        lp.visited = z3.Store(lp.visited, lp.cur, z3.BoolVal(True))
     _check_inv(lp, {k: v for k, v in locs.items() if v is not UNBOUND}, "step")
     if lp.spec.decreases is not None:
         d1 = lp.spec.decreases(_ns(lp, {k: v for k, v in locs.items() if v is not UNBOUND}))
